@@ -66,6 +66,8 @@ func checkC02(c *Ctx) {
 	if f == nil {
 		return
 	}
+	// (j) which operands a binary operator relates is decided by how the expression groups
+	r.Import("C08.", "C02.j", "binary operators group by the published table (the C08 conditions): `a > b + 1` relates a with b + 1 and has type bool only if + binds tighter than > — a re-levelled table turns it into (a > b) + 1, and the inferred signature with it", 40, func() { checkC08(c) })
 	// (i) names resolve by lexical scope: one binder, one type variable
 	if _, frtProg, _ := libProg(c, "pkg/frt"); frtProg != nil {
 		nr := noReturn(f.Prog, frtProg)
